@@ -513,10 +513,16 @@ def check_progress(ctx, fi, cls, rule="C06.R8"):
     if not loops:
         return n
     paths = paths_of(ctx, fi, cls)
+    unb = 0
     for lp in loops:
         n += 1
         what = "for %s" % ast.unparse(lp.iter)[:50] if isinstance(lp, ast.For) else "while %s" % ast.unparse(lp.test)[:50]
         key = "loop " + (norm_text(lp.iter) if isinstance(lp, ast.For) else norm_text(lp.test))[:80]
+        # `while True` and `for i in itertools.count()` are the same loop: one key, so a recorded finding follows the loop through a respelling
+        if (isinstance(lp, ast.While) and isinstance(lp.test, ast.Constant) and lp.test.value is True) or \
+                (isinstance(lp, ast.For) and isinstance(lp.iter, ast.Call) and not lp.iter.args and ast.unparse(lp.iter.func) in ("itertools.count", "count")):
+            unb += 1
+            key = "loop <unbounded>" + (" #%d" % unb if unb > 1 else "")
         if loop_kind(lp) == "bounded":
             ctx.ob(rule, fi, True, "%s iterates a finite collection" % what, key=key, node=lp)
             continue
